@@ -99,7 +99,11 @@ func (g *GlobalTransactionManager) Commit(ctx context.Context, gtr *GlobalTransa
 	}
 
 	if err != nil || bf.Err() != nil {
-		lastErr := errors.Wrap(err, bf.Err().Error())
+		// bf.Err() alone means the context was cancelled or the retries ran out before any request succeeded
+		lastErr := bf.Err()
+		if err != nil {
+			lastErr = errors.Wrap(err, bf.Err().Error())
+		}
 		log.Warnf("send global commit request failed, xid %s, error %v", gtr.Xid, lastErr)
 		return lastErr
 	}
@@ -140,8 +144,12 @@ func (g *GlobalTransactionManager) Rollback(ctx context.Context, gtr *GlobalTran
 		bf.Wait()
 	}
 
-	if err != nil && bf.Err() != nil {
-		lastErr := errors.Wrap(err, bf.Err().Error())
+	if err != nil || bf.Err() != nil {
+		// bf.Err() alone means the context was cancelled or the retries ran out before any request succeeded
+		lastErr := bf.Err()
+		if err != nil {
+			lastErr = errors.Wrap(err, bf.Err().Error())
+		}
 		log.Errorf("GlobalRollbackRequest rollback failed, xid %s, error %v", gtr.Xid, lastErr)
 		return lastErr
 	}
